@@ -182,10 +182,13 @@ def main_check(modname, tier, seed, replay_path=None, extra_cov=None):
     # group by key, first case in enumeration order
     groups = {}
     order = []
+    size_of = getattr(mod, "case_size", None)
     for v in total["violations"]:
         if v["key"] not in groups:
             groups[v["key"]] = {"first": v, "count": 0}
             order.append(v["key"])
+        elif size_of is not None and size_of(v["case"]) < size_of(groups[v["key"]]["first"]["case"]):
+            groups[v["key"]]["first"] = v  # keep the smallest counterexample (shortest history)
         groups[v["key"]]["count"] += 1
 
     known = [k for k in load_known() if k.get("property") == pid]
